@@ -95,8 +95,14 @@ def check(run):
                   'after the push, size==1 (idle hop) reaches begin_send_next_packet()')
         # in the abstract state "the hop was idle" (exactly one packet queued after the push) every path from the push
         # to the exit starts the sender: branches over the queue size are followed along their feasible edge only
+        # a flag that next_packet_sent() raises across forward_packet() is down whenever the hop is idle (reentrancy_rule
+        # decides its discipline; while it is up next_packet_sent() itself continues with the queue non-empty)
+        fwd_flags = {a.field.split('::')[-1] for a in q.field_accesses(ns) if a.kind == 'assign' and a.field.startswith(Q + '::') and isinstance(q.strip_casts(a.site.get('rhs')).get('v'), bool)}
+
         def size_is_one(atom):
             r = q.render(ip, q.strip_casts(atom))
+            if r.replace('this->', '') in fwd_flags:
+                return False
             if r == 'm_queue.empty()':
                 return False
             if r == 'm_queue.size()':
@@ -274,6 +280,8 @@ def check(run):
     channel_orientation_rules(run)
     run.clause('routes are composed in travel order and in full: route::prepend/append keep the order of the hops they add; the UDP sender prepends its whole outgoing route')
     route_algebra_rules(run)
+    run.clause('the hop tolerates re-entrancy: forwarding may deliver a packet into this same queue (half-duplex link); the sender is never started twice')
+    reentrancy_rule(run)
     run.floor('R10', 2)
     run.floor('R4', 3)
 
@@ -514,3 +522,42 @@ def route_algebra_rules(run):
     run.check(okp, 'R4', 'udp-full-outgoing-route', st.norm, st.loc(pre[0]) if pre else st.loc(),
               'the datagram\'s route is not prefixed with the sender\'s WHOLE outgoing route (%s): hops after the first one - a NAT behind a modem, a second queue - are skipped, so the receiver sees the private source address or the datagram arrives early'
               % (q.render(st, pre[0])[:90] if pre else 'no prepend'), 'prepend(get_outgoing_route(own address)) - the route overload')
+
+
+def reentrancy_rule(run):
+    """Forwarding a packet can re-enter incoming_packet() of the SAME queue (a hop shared by both directions of a link:
+    the receiver answers from inside its incoming_packet()).  If next_packet_sent() decides about the next departure
+    AFTER forward_packet(), the re-entrant arrival has already started it: the departure timer is armed twice, the
+    cancelled wait still runs its (error-ignoring) completion, and a packet is "sent" twice - front() of an empty
+    deque, or two completions cancelling each other forever at one virtual instant.  Accepted shapes: the next departure
+    is arranged before the packet is handed on; or a member flag is raised across forward_packet() and incoming_packet()
+    does not start the sender while it is up (shared with C10, C12)."""
+    fx = run.fx
+    ns = fx.fn1(Q + '::next_packet_sent')
+    ip = fx.fn1(Q + '::incoming_packet')
+    run.touch(ns)
+    run.touch(ip)
+    fwd = [c for c in ns.calls() if q.callee_name(c) == 'sim::forward_packet']
+    starts = [c for c in ns.calls() if q.callee_name(c) == Q + '::begin_send_next_packet']
+    if not fwd:
+        run.broke('queue::next_packet_sent no longer forwards the packet (anchor vanished)')
+        return
+    late = [s_ for s_ in starts if any(q.precedes(ns, f_, s_) or ns.cfg.node_block(s_) in ns.cfg.reach_from(ns.cfg.node_block(f_)) for f_ in fwd)]
+    ok, how = not late, 'the next departure is arranged before the packet is handed on'
+    if late:
+        ups = {}
+        for a in q.field_accesses(ns):
+            if a.kind == 'assign' and a.field.startswith(Q + '::') and isinstance(q.strip_casts(a.site.get('rhs')).get('v'), bool):
+                ups.setdefault(a.field.split('::')[-1], []).append((q.strip_casts(a.site['rhs'])['v'], a.site))
+        for fld, ws in ups.items():
+            up = [s_ for v_, s_ in ws if v_ is True]
+            down = [s_ for v_, s_ in ws if v_ is False]
+            raised = bool(up) and all(q.any_precedes(ns, up, f_) for f_ in fwd)
+            lowered = bool(down) and all(any(q.precedes(ns, f_, d_) for d_ in down) for f_ in fwd) and all(any(q.precedes(ns, d_, s_) for d_ in down) for s_ in late)
+            ip_starts = [c for c in ip.calls() if q.callee_name(c) == Q + '::begin_send_next_packet']
+            tested = bool(ip_starts) and all(any(q.render(ip, q.strip_casts(a_)).replace('this->', '') == fld and not p_ for a_, p_ in q.guards_at(ip, c)) for c in ip_starts)
+            if raised and lowered and tested:
+                ok, how = True, 'flag %s is raised across forward_packet() and incoming_packet() does not start the sender while it is up' % fld
+    run.check(ok, 'R16', 'hop-reentrancy', Q + '::next_packet_sent', ns.loc(late[0]) if late else ns.loc(),
+              'next_packet_sent() starts the next departure after forward_packet(): when forwarding re-enters incoming_packet() of this queue (a hop shared by both directions) the sender has already been started for the new packet and is started again - the timer is armed twice, one packet is taken twice (front() of an empty deque) or the two completions cancel each other forever',
+              how)
